@@ -27,6 +27,7 @@ func checkC04(p *Prog, r *Report) {
 	r.rule("C04.W1", "every rcv_queue.Push is dominated by rcv_queue.Len() < rcv_wnd (strict) with no intervening mutation of the queue", 2)
 	r.rule("C04.W2", "every insertion of wire data into rcv_buf is dominated by sn in [rcv_nxt, rcv_nxt+rcv_wnd) (signed differences) and by the duplicate test !rcv_buf.Has(sn); a re-insert pushes back exactly the element popped in the same iteration", 2)
 	r.rule("C04.W3", "wnd_unused returns 0 or rcv_wnd - rcv_queue.Len() under Len < rcv_wnd; every store to segment.wnd is wnd_unused(), a copy of the flush template, or the wire parser's value", 4)
+	r.rule("C04.W8", "every segment encoded by flush had its wnd stored from this flush's wnd_unused() (directly or via the template) on every path since the start of flush / of its loop iteration", 3)
 	r.rule("C04.W4", "every snd_buf.Push is dominated by _itimediff(snd_nxt, snd_una+w) < 0 with w <= snd_wnd, w <= rmt_wnd and, when nocwnd == 0, w <= cwnd; the pushed segment comes from snd_queue.Pop and gets sn = snd_nxt", 1)
 	r.rule("C04.W5", "with congestion control on, the timeout arm (lostSegs > 0) stores cwnd = 1 and no later store on the way to the exit raises it", 1)
 	r.rule("C04.W6", "in WriteBuffers every kcp.Send is dominated by a branch on WaitSnd() < snd_wnd taken in the same critical section (no Unlock between test and Send); the refused path reaches the blocking select", 2)
@@ -317,6 +318,83 @@ func checkWndUnused(p *Prog, r *Report) {
 			continue
 		}
 		r.bad("C04.W3", st.Fn.Name, p.Pos(st.Node), construct, "advertised window does not come from wnd_unused()", "")
+	}
+
+	// ---- W8: what is put on the wire carries the window computed in this flush
+	enc := p.Method("segment", "encode")
+	c := p.CFG(flush)
+	nEnc := 0
+	for _, s := range p.CallsTo(enc) {
+		if rootFuncInfo(s.Fn) != flush {
+			continue
+		}
+		nEnc++
+		x := s.Recv
+		for x.Op == "addr" || x.Op == "deref" {
+			x = x.Args[0]
+		}
+		construct := exprString(s.Call.Fun) + "(…)"
+		pt, _ := c.PointOf(s.Call)
+		isTemplate := false
+		for _, tv := range templates {
+			if x.Op == "var" && x.Obj == tv {
+				isTemplate = true
+			}
+		}
+		isFresh := func(n ast.Node, _ Point) bool { // a store X.wnd = wnd_unused() or = template.wnd
+			as, ok := n.(*ast.AssignStmt)
+			if !ok {
+				return false
+			}
+			for i, l := range as.Lhs {
+				lt := p.Term(l)
+				b, ok := fieldBase(lt, fWnd)
+				if !ok || b.Key() != x.Key() || i >= len(as.Rhs) {
+					continue
+				}
+				if call, ok := ast.Unparen(as.Rhs[i]).(*ast.CallExpr); ok && p.Callee(call) == wu {
+					return true
+				}
+				if rb, ok := fieldBase(p.Term(as.Rhs[i]), fWnd); ok && rb.Op == "var" {
+					for _, tv := range templates {
+						if rb.Obj == tv {
+							return true
+						}
+					}
+				}
+			}
+			return false
+		}
+		from := Point{c.Entry(), 0}
+		what := "from the entry of flush"
+		if !isTemplate {
+			// an element of snd_buf visited by a loop: within the iteration
+			lp := enclosingLoop(p, s.Call)
+			var body *ast.BlockStmt
+			switch l := lp.(type) {
+			case *ast.RangeStmt:
+				body = l.Body
+			case *ast.ForStmt:
+				body = l.Body
+			}
+			if body == nil || len(body.List) == 0 {
+				r.bad("C04.W8", flush.Name, p.Pos(s.Call), construct, "a segment other than the flush template is encoded outside a loop over snd_buf", "")
+				continue
+			}
+			if bp, ok := c.PointOf(body.List[0]); ok {
+				from = bp
+			}
+			what = "from the start of the loop iteration"
+		}
+		res := c.FindPath(PathQuery{From: from, IsBarrier: isFresh, IsTarget: func(n ast.Node, q Point) bool { return q == pt }})
+		if res.Found {
+			r.bad("C04.W8", flush.Name, p.Pos(s.Call), construct, "a path "+what+" reaches the encoding of this segment without storing the window computed in this flush (wnd_unused() or the template's copy) into it: the segment advertises the window of an earlier moment — more than the delivery queue has room for once the reader has stalled", c.DescribePath(res.Path))
+		} else {
+			r.ok("C04.W8", flush.Name, p.Pos(s.Call), construct, "wnd stored "+what+" on every path before the segment is encoded")
+		}
+	}
+	if nEnc == 0 {
+		r.bad("C04.W8", flush.Name, p.Pos(flush.Node), "segment.encode", "flush encodes nothing", "")
 	}
 }
 
